@@ -17,6 +17,7 @@ KeyShape(k) == (Len(k) = 33 /\ k[1] \in {2, 3}) \/ (Len(k) = 65 /\ k[1] \in {4, 
 TfFail == <<"fail">>
 TfUnspec == <<"unspec">>          \* outside the function's domain: whatever the tool prints is not compared
 DefaultHrp == StrToCodes("bcrt")
+Base58Cap == 200              \* Value::do_base58chkdec: DecodeBase58Check(.., 200)
 
 Two256 == Zeros(32) \o <<1>>
 Pad32(n) == ToLE(n, 32)
@@ -57,7 +58,8 @@ Transform(name, args) ==
       [] name = "hash160" -> Data(Hash160(b1))
       [] name = "tagged_hash" -> IF nb < 2 THEN TfFail ELSE Data(TaggedHash(CodesToStr(b1), Concat([i \in 1..(nb - 1) |-> args[i + 1][2]])))
       [] name = "base58chkenc" -> Str(Encode58Check(b1))
-      [] name = "base58chkdec" -> (LET d == Decode58Check(b1) IN IF a1[1] # "str" \/ ~d[1] THEN TfFail ELSE Data(d[2]))
+      \* the tool decodes payloads of up to Base58Cap bytes (its documented bound); longer ones are refused
+      [] name = "base58chkdec" -> (LET d == Decode58Check(b1) IN IF a1[1] # "str" \/ ~d[1] \/ Len(d[2]) > Base58Cap THEN TfFail ELSE Data(d[2]))
       [] name = "bech32enc" -> Str(SegwitEncode(DefaultHrp, 1, b1, Bech32Const))
       [] name = "bech32menc" -> Str(SegwitEncode(DefaultHrp, 1, b1, Bech32mConst))
       [] name = "bech32dec" ->
